@@ -945,8 +945,10 @@ impl Connection {
 
         self.app_limited = buf.is_empty() && !congestion_blocked;
 
-        // Send MTU probe if necessary
-        if buf.is_empty() && self.state.is_established() {
+        // Send MTU probe if necessary. Like any other datagram, a probe must not be started once the
+        // anti-amplification budget of an unvalidated path is exhausted.
+        if buf.is_empty() && self.state.is_established() && !self.path.anti_amplification_blocked(1)
+        {
             let space_id = SpaceId::Data;
             let probe_size = self
                 .path
